@@ -3,6 +3,7 @@ pub mod c02;
 pub mod c03;
 pub mod c04;
 pub mod c10;
+pub mod c12;
 pub mod c13;
 pub mod c14;
 pub mod c15;
@@ -20,6 +21,7 @@ pub fn run(ctx: &Ctx) -> i32 {
         "C03" => c03::run(ctx),
         "C04" => c04::run(ctx),
         "C10" => c10::run(ctx),
+        "C12" => c12::run(ctx),
         "C13" => c13::run(ctx),
         "C14" => c14::run(ctx),
         "C15" => c15::run(ctx),
@@ -42,6 +44,7 @@ pub fn replay(ctx: &Ctx, file: &Path) -> i32 {
         "C04" => ctx.replay_file(file, &|c: &str, case: &serde_json::Value| c04::replay_any(c, case, &ctx.known)),
         "C18" => ctx.replay_file(file, &|c: &str, case: &serde_json::Value| c18::replay_any(c, case, &ctx.known)),
         "C10" => ctx.replay_file(file, &|c: &str, case: &serde_json::Value| c10::replay_any(c, case, &ctx.known)),
+        "C12" => ctx.replay_file(file, &|c: &str, case: &serde_json::Value| c12::replay_any(c, case, &ctx.known)),
         "C13" => ctx.replay_file(file, &|c: &str, case: &serde_json::Value| c13::replay_any(c, case, &ctx.known)),
         "C14" => ctx.replay_file(file, &|c: &str, case: &serde_json::Value| c14::replay_any(c, case, &ctx.known)),
         "C15" => ctx.replay_file(file, &|c: &str, case: &serde_json::Value| c15::replay_any(c, case, &ctx.known)),
@@ -64,7 +67,13 @@ pub fn replay(ctx: &Ctx, file: &Path) -> i32 {
     }
 }
 
-pub fn aux(_args: &[String]) -> i32 {
-    eprintln!("unknown subcommand");
-    2
+pub fn aux(args: &[String]) -> i32 {
+    match args.first().map(|s| s.as_str()) {
+        Some("worker") => c12::worker_main(),
+        Some("depth") if args.len() >= 3 => c12::depth_child(&args[1], args[2].parse().unwrap_or(1)),
+        _ => {
+            eprintln!("unknown subcommand");
+            2
+        }
+    }
 }
